@@ -85,6 +85,15 @@ impl Buffer {
 
     /// Drop the buffer by reconstructing a `Vec<T>`.
     fn release<T>(this: &mut Buffer) {
+        #[cfg(rten_verif)]
+        rten_base::verif::emit(|| {
+            format!(
+                r#"{{"ev":"pool_free","ptr":{},"ptr2":{},"cap":{}}}"#,
+                this.ptr as usize % 1_000_000_007,
+                this.ptr as usize % 998_244_353,
+                this.capacity
+            )
+        });
         // Safety: We are reconstructing the vec with the same raw parts into
         // which it was decomposed in `from_vec`.
         let vec = unsafe { Vec::<T>::from_raw_parts(this.ptr as *mut T, 0, this.capacity) };
@@ -228,11 +237,38 @@ impl BufferPool {
             self.hit_count.fetch_add(1, Ordering::AcqRel);
 
             let item = buffers.remove(best_fit);
+            #[cfg(rten_verif)]
+            rten_base::verif::emit(|| {
+                format!(
+                    r#"{{"ev":"pool_alloc","hit":true,"esize":{},"ealign":{},"req":{},"ptr":{},"ptr2":{},"cap":{},"lsize":{},"lalign":{},"idx":{},"len":{}}}"#,
+                    size_of::<T>(),
+                    align_of::<T>(),
+                    capacity,
+                    item.ptr as usize % 1_000_000_007,
+                    item.ptr as usize % 998_244_353,
+                    item.capacity,
+                    item.layout.size(),
+                    item.layout.align(),
+                    best_fit,
+                    buffers.len()
+                )
+            });
             return item.into_vec::<T>().expect("alignment should match");
         }
 
         // No suitable buffer was found. Fall back to the global allocator, but
         // release the mutex before we do.
+        #[cfg(rten_verif)]
+        rten_base::verif::emit(|| {
+            format!(
+                r#"{{"ev":"pool_alloc","hit":false,"esize":{},"ealign":{},"req":{},"ptr":0,"ptr2":0,"cap":0,"lsize":0,"lalign":0,"idx":0,"len":{}}}"#,
+                size_of::<T>(),
+                align_of::<T>(),
+                capacity,
+                buffers.len()
+            )
+        });
+
         std::mem::drop(buffers);
 
         Vec::with_capacity(capacity)
@@ -244,6 +280,32 @@ impl BufferPool {
     /// to fulfill future allocation requests.
     pub fn add<B: Into<Buffer>>(&self, buf: B) {
         let buf: Buffer = buf.into();
+        #[cfg(rten_verif)]
+        if rten_base::verif::enabled() {
+            // Same behaviour as below, with events emitted at the
+            // linearization points.
+            let kept = buf.layout.size() >= self.min_size;
+            let describe = |buf: &Buffer, kept: bool, len: usize| {
+                format!(
+                    r#"{{"ev":"pool_add","ptr":{},"ptr2":{},"cap":{},"lsize":{},"lalign":{},"kept":{},"len":{}}}"#,
+                    buf.ptr as usize % 1_000_000_007,
+                    buf.ptr as usize % 998_244_353,
+                    buf.capacity,
+                    buf.layout.size(),
+                    buf.layout.align(),
+                    kept,
+                    len
+                )
+            };
+            if kept {
+                let mut buffers = self.buffers.lock().unwrap();
+                rten_base::verif::emit(|| describe(&buf, true, buffers.len()));
+                buffers.push(buf);
+            } else {
+                rten_base::verif::emit(|| describe(&buf, false, 0));
+            }
+            return;
+        }
         if buf.layout.size() >= self.min_size {
             self.buffers.lock().unwrap().push(buf);
         }
